@@ -1,6 +1,141 @@
+(* ops answered by coq/Hand/Iter.v, Order.v, Sys.v (extracted): days dates months later earlier and_later
+   and_earlier cal_cmp date_cmp system2jdn at_system_time history.
+   Trusted for the correspondence only: argument decoding and printing.  Everything that computes is extracted. *)
 module ZA = Z
 type ostring = string
 open Jv
 open Util
 
-let eval (toks : ostring list) : ostring = ignore toks; raise Unsupported
+let join = String.concat ";"
+
+(* "." = no ops; otherwise a non-empty string over f b l *)
+let iter_ops (t : ostring) : itop list =
+  if t = "." then [] else begin
+    if t = "" then raise Bad_case;
+    List.init (String.length t) (fun i ->
+      match t.[i] with 'f' -> OpNext | 'b' -> OpNextBack | 'l' -> OpLen | _ -> raise Bad_case)
+  end
+
+let out_s (item : 'a -> ostring) (o : 'a itout) : ostring =
+  match o with
+  | OutFront None | OutBack None -> "-"
+  | OutFront (Some x) | OutBack (Some x) -> item x
+  | OutLen n -> zs n
+
+let dash_date = function None -> "-" | Some d -> date_s d
+
+let rec nat_of_int (n : int) : nat = if n <= 0 then O else S (nat_of_int (n - 1))
+
+let cmp_s = function Lt -> "Less" | Eq -> "Equal" | Gt -> "Greater"
+
+let cmp_line c e heq pc =
+  Printf.sprintf "%s;eq=%s;hasheq=%s;pcmp=%s" (cmp_s c) (bool_s e) (bool_s heq)
+    (match pc with Some c -> cmp_s c | None -> raise Model_panic)
+
+let before_of (s : ostring) : bool =
+  let v = u32 s in
+  match zs v with "0" -> false | "1" -> true | _ -> raise Bad_case
+
+(* the harness prints UNREP when std cannot build the SystemTime; Sys.sys_time_repr mirrors that rule and
+   normalises nanos >= 10^9 into the seconds like Duration::new *)
+let sys_args before secs nanos =
+  let b = before_of before in
+  let s = u64 secs in
+  let n = u32 nanos in
+  (b, sys_time_repr b s n)
+
+type hop = HS | HP | HC of calendar | HN of z | HY | HR | HL | HE | HA | HUnsup
+
+let parse_hop (tok : ostring) : hop =
+  match tok with
+  | "s" -> HS | "p" -> HP | "y" -> HY | "r" -> HR | "L" -> HL | "E" -> HE | "A" -> HA
+  | "t" | "o" | "h" | "m" -> HUnsup
+  | _ ->
+    let n = String.length tok in
+    if n >= 2 && String.sub tok 0 2 = "c:" then HC (cal_of (String.sub tok 2 (n - 2)))
+    else if n >= 2 && String.sub tok 0 2 = "n:" then HN (u32 (String.sub tok 2 (n - 2)))
+    else raise Bad_case
+
+let apply_hop (d : date) (h : hop) : date option =
+  match h with
+  | HS -> run (date_succ d)
+  | HP -> run (date_pred d)
+  | HC c -> Some (run (date_convert_to d c))
+  | HN k ->
+    (match run (calendar_month_shape d.date_f_calendar d.date_f_year d.date_f_month) with
+     | None -> raise Model_panic (* .unwrap() *)
+     | Some sh -> run (monthShape_nth_date sh k))
+  | HY -> (match run (calendar_at_ymd d.date_f_calendar d.date_f_year d.date_f_month d.date_f_day) with Ok x -> Some x | Err _ -> None)
+  | HR -> (match run (calendar_at_ordinal_date d.date_f_calendar d.date_f_year d.date_f_ordinal) with Ok x -> Some x | Err _ -> None)
+  | HL -> fst (run (later_next (run (date_later d))))
+  | HE -> fst (run (earlier_next (run (date_earlier d))))
+  | HA -> fst (run (and_later_next (run (date_and_later d))))
+  | HUnsup -> raise Unsupported
+
+let eval (toks : ostring list) : ostring =
+  match toks with
+  | [("days" | "dates") as op; c; y; m; ops] ->
+    let c = cal_of c in
+    let y = i32 y in
+    let m = month_of_int m in
+    let ops = iter_ops ops in
+    (match run (calendar_month_shape c y m) with
+     | None -> "None"
+     | Some sh ->
+       if op = "days" then join (List.map (out_s zs) (run (days_run ops sh)))
+       else join (List.map (out_s date_s) (run (dates_run ops sh))))
+  | ["months"; ops] ->
+    let ops = iter_ops ops in
+    join (List.map (out_s month_num) (run (months_run ops)))
+  | [("later" | "earlier" | "and_later" | "and_earlier") as op; c; j; n] ->
+    let c = cal_of c in
+    let j = i32 j in
+    let n = u32 n in
+    let n = ZA.to_int (zarith_of_z n) in
+    if n > 100000 then raise Unsupported;
+    let d = run (calendar_at_jdn c j) in
+    let k = nat_of_int n in
+    let items = match op with
+      | "later" -> run (later_take k d)
+      | "earlier" -> run (earlier_take k d)
+      | "and_later" -> run (and_later_take k d)
+      | _ -> run (and_earlier_take k d) in
+    join (List.map dash_date items)
+  | ["cal_cmp"; c1; c2] ->
+    let c1 = cal_of c1 in
+    let c2 = cal_of c2 in
+    cmp_line (cal_cmp c1 c2) (cal_eq c1 c2) (hstream_eqb (cal_hash c1) (cal_hash c2)) (cal_partial_cmp c1 c2)
+  | ["date_cmp"; c1; j1; c2; j2] ->
+    let c1 = cal_of c1 in
+    let j1 = i32 j1 in
+    let c2 = cal_of c2 in
+    let j2 = i32 j2 in
+    let d1 = run (calendar_at_jdn c1 j1) in
+    let d2 = run (calendar_at_jdn c2 j2) in
+    cmp_line (date_cmp d1 d2) (date_eq d1 d2) (hstream_eqb (date_hash d1) (date_hash d2)) (date_partial_cmp d1 d2)
+  | ["system2jdn"; before; secs; nanos] ->
+    (match sys_args before secs nanos with
+     | (_, None) -> "UNREP"
+     | (b, Some (s, n)) ->
+       (match run (system2jdn_model b s n) with
+        | Ok (j, sc) -> Printf.sprintf "Ok(%s,%s)" (zs j) (zs sc)
+        | Err _ -> "Err"))
+  | ["at_system_time"; c; before; secs; nanos] ->
+    let c = cal_of c in
+    (match sys_args before secs nanos with
+     | (_, None) -> "UNREP"
+     | (b, Some (s, n)) ->
+       (match run (at_system_time_model c b s n) with
+        | Ok (d, sc) -> Printf.sprintf "Ok(%s,%s)" (date_s d) (zs sc)
+        | Err _ -> "Err"))
+  | "history" :: c :: j :: ops ->
+    let c = cal_of c in
+    let j = i32 j in
+    let ops = List.map parse_hop ops in
+    if List.mem HUnsup ops then raise Unsupported;
+    let d = ref (run (calendar_at_jdn c j)) in
+    join (List.map (fun h ->
+      let r = apply_hop !d h in
+      (match r with Some nd -> d := nd | None -> ());
+      dash_date r) ops)
+  | _ -> raise Unsupported
